@@ -1,0 +1,302 @@
+//go:build verif
+
+package grpctunnel
+
+// Verification-only entry points (build tag "verif"). Nothing in this file is
+// compiled into a normal build. It only exposes existing internals to an
+// external harness; it adds no behaviour of its own.
+
+import (
+	"context"
+	"sort"
+	"sync"
+	"sync/atomic"
+	"time"
+
+	"github.com/fullstorydev/grpchan"
+	"google.golang.org/grpc"
+	"google.golang.org/grpc/metadata"
+
+	"github.com/jhump/grpctunnel/tunnelpb"
+)
+
+// ---- yield points ----
+
+var verifHook atomic.Pointer[func(point string, id int64)]
+
+// VerifSetHook installs (or, with nil, removes) the callback invoked at every
+// yield point.
+func VerifSetHook(f func(point string, id int64)) {
+	if f == nil {
+		verifHook.Store(nil)
+		return
+	}
+	verifHook.Store(&f)
+}
+
+func verifYield(point string, id int64) {
+	if f := verifHook.Load(); f != nil {
+		(*f)(point, id)
+	}
+}
+
+// ---- constants ----
+
+const (
+	VerifInitialWindowSize = initialWindowSize
+	VerifChunkMax          = chunkMax
+	VerifNegotiateKey      = grpctunnelNegotiateKey
+	VerifNegotiateVal      = grpctunnelNegotiateVal
+)
+
+// ---- tunnel server ----
+
+type VerifStreamServer = tunnelStreamServer
+type VerifStreamClient = tunnelStreamClient
+
+var verifServers sync.Map // tunnelStreamServer -> *tunnelServer
+
+func verifServerStarted(s *tunnelServer) {
+	verifServers.Store(s.stream, s)
+}
+
+// VerifServeTunnel runs serveTunnel on the given carrier stream.
+func VerifServeTunnel(stream VerifStreamServer, tunnelMetadata metadata.MD, clientAcceptsSettings bool, disableFlowControl bool, handlers grpchan.HandlerMap, isClosing func() bool) error {
+	defer verifServers.Delete(stream)
+	return serveTunnel(stream, tunnelMetadata, clientAcceptsSettings, &tunnelOpts{disableFlowControl: disableFlowControl}, handlers, isClosing)
+}
+
+// VerifServerState reports the stream table keys (sorted) and lastSeen of the
+// tunnel server running on the given carrier stream.
+func VerifServerState(stream VerifStreamServer) (ids []int64, lastSeen int64, ok bool) {
+	v, found := verifServers.Load(stream)
+	if !found {
+		return nil, 0, false
+	}
+	s := v.(*tunnelServer)
+	s.mu.RLock()
+	defer s.mu.RUnlock()
+	for id := range s.streams {
+		ids = append(ids, id)
+	}
+	sort.Slice(ids, func(i, j int) bool { return ids[i] < ids[j] })
+	return ids, s.lastSeen, true
+}
+
+// ---- tunnel channel ----
+
+// VerifChannel gives read access to a tunnelChannel's tables.
+type VerifChannel struct{ c *tunnelChannel }
+
+// VerifNewTunnelChannel runs newTunnelChannel on the given carrier stream.
+func VerifNewTunnelChannel(stream VerifStreamClient, tunnelMetadata metadata.MD, serverSendsSettings bool, disableFlowControl bool, tearDown func()) VerifChannel {
+	var td func(*tunnelChannel)
+	if tearDown != nil {
+		td = func(*tunnelChannel) { tearDown() }
+	}
+	return VerifChannel{newTunnelChannel(stream, tunnelMetadata, serverSendsSettings, &tunnelOpts{disableFlowControl: disableFlowControl}, td)}
+}
+
+// VerifChannelOf returns the accessor for a TunnelChannel created by this
+// package (ok is false for any other implementation).
+func VerifChannelOf(tc TunnelChannel) (VerifChannel, bool) {
+	c, ok := tc.(*tunnelChannel)
+	return VerifChannel{c}, ok
+}
+
+func (v VerifChannel) Channel() TunnelChannel { return v.c }
+
+// State reports the stream table keys (sorted), lastStreamID, streamCreated
+// and finished.
+func (v VerifChannel) State() (ids []int64, lastStreamID int64, streamCreated, finished bool) {
+	v.c.mu.RLock()
+	defer v.c.mu.RUnlock()
+	for id := range v.c.streams {
+		ids = append(ids, id)
+	}
+	sort.Slice(ids, func(i, j int) bool { return ids[i] < ids[j] })
+	return ids, v.c.lastStreamID, v.c.streamCreated, v.c.finished
+}
+
+// Revision reports the negotiated protocol revision and the peer's initial
+// window (0 if no settings were received). Only meaningful once the settings
+// exchange is over.
+func (v VerifChannel) Revision() (rev int32, peerWindow uint32) {
+	select {
+	case <-v.c.awaitSettings:
+	default:
+		return -1, 0
+	}
+	if v.c.settings != nil {
+		peerWindow = v.c.settings.InitialWindowSize
+	}
+	return int32(v.c.useRevision), peerWindow
+}
+
+// SetLastStreamID sets the id counter (used to exercise id exhaustion).
+func (v VerifChannel) SetLastStreamID(id int64) {
+	v.c.mu.Lock()
+	defer v.c.mu.Unlock()
+	v.c.lastStreamID = id
+}
+
+// VerifClientStreamID reports the tunnel stream id of a client stream created
+// by a tunnel channel.
+func VerifClientStreamID(cs grpc.ClientStream) (int64, bool) {
+	st, ok := cs.(*tunnelClientStream)
+	if !ok {
+		return 0, false
+	}
+	return st.streamID, true
+}
+
+// ---- flow control ----
+
+// VerifSender wraps the flow-controlled sender.
+type VerifSender struct{ s *defaultSender }
+
+func VerifNewSender(ctx context.Context, window uint32, sendFunc func(data []byte, total uint32, first bool) error) VerifSender {
+	return VerifSender{newSender(ctx, window, sendFunc).(*defaultSender)}
+}
+func (v VerifSender) Send(data []byte) error  { return v.s.send(data) }
+func (v VerifSender) UpdateWindow(add uint32) { v.s.updateWindow(add) }
+func (v VerifSender) Window() uint32          { return v.s.currentWindow.Load() }
+func (v VerifSender) TokenPresent() bool      { return len(v.s.windowUpdates) > 0 }
+
+// VerifNewSenderNoFC wraps the revision-zero sender.
+func VerifNewSenderNoFC(sendFunc func(data []byte, total uint32, first bool) error) func([]byte) error {
+	return newSenderWithoutFlowControl(sendFunc).send
+}
+
+// VerifItem is the element type used by VerifReceiver: an opaque tag and the
+// size that counts against the window.
+type VerifItem struct {
+	Tag  int
+	Size uint
+}
+
+// VerifReceiver wraps the flow-controlled receiver.
+type VerifReceiver struct{ r *defaultReceiver[VerifItem] }
+
+func VerifNewReceiver(updateWindow func(uint32), window uint32) VerifReceiver {
+	return VerifReceiver{newReceiver(func(i VerifItem) uint { return i.Size }, updateWindow, window).(*defaultReceiver[VerifItem])}
+}
+func (v VerifReceiver) Accept(i VerifItem) error   { return v.r.accept(i) }
+func (v VerifReceiver) Close()                     { v.r.close() }
+func (v VerifReceiver) Cancel()                    { v.r.cancel() }
+func (v VerifReceiver) Dequeue() (VerifItem, bool) { return v.r.dequeue() }
+
+// State reports window, number of queued items, queued bytes and the flags.
+func (v VerifReceiver) State() (window uint32, items int, bytes uint, closed, cancelled bool) {
+	v.r.mu.Lock()
+	defer v.r.mu.Unlock()
+	for e := v.r.items.Front(); e != nil; e = e.Next() {
+		bytes += e.Value.(VerifItem).Size
+	}
+	return v.r.currentWindow, v.r.items.Len(), bytes, v.r.closed, v.r.cancelled
+}
+
+// VerifNewReceiverNoFC wraps the revision-zero receiver.
+func VerifNewReceiverNoFC(ctx context.Context) (accept func(VerifItem) error, closeFn func(), cancel func(), dequeue func() (VerifItem, bool)) {
+	r := newReceiverWithoutFlowControl[VerifItem](ctx)
+	return r.accept, r.close, r.cancel, r.dequeue
+}
+
+// ---- pure helpers ----
+
+func VerifTimeoutFromHeaders(md metadata.MD) (time.Duration, bool) { return timeoutFromHeaders(md) }
+func VerifToProto(md metadata.MD) *tunnelpb.Metadata               { return toProto(md) }
+func VerifFromProto(md *tunnelpb.Metadata) metadata.MD             { return fromProto(md) }
+
+func VerifSupportedRevisions(disableFlowControl bool) []int32 {
+	o := tunnelOpts{disableFlowControl: disableFlowControl}
+	var out []int32
+	for _, r := range o.supportedRevisions() {
+		out = append(out, int32(r))
+	}
+	return out
+}
+
+// VerifFindMethod reports what findMethod resolves a method name to in the
+// given service descriptor: 0 = nothing, 1 = unary method, 2 = stream.
+func VerifFindMethod(sd *grpc.ServiceDesc, method string) int {
+	switch findMethod(sd, method).(type) {
+	case *grpc.MethodDesc:
+		return 1
+	case *grpc.StreamDesc:
+		return 2
+	}
+	return 0
+}
+
+// ---- reverse-tunnel registry ----
+
+// VerifPool wraps a reverseChannels list; members are identified by small
+// integers chosen by the harness.
+type VerifPool struct {
+	rc      *reverseChannels
+	members map[int]*tunnelChannel
+}
+
+func VerifNewPool() *VerifPool {
+	return &VerifPool{rc: newReverseChannels(), members: map[int]*tunnelChannel{}}
+}
+func (p *VerifPool) member(id int) *tunnelChannel {
+	ch := p.members[id]
+	if ch == nil {
+		ch = &tunnelChannel{}
+		p.members[id] = ch
+	}
+	return ch
+}
+func (p *VerifPool) idOf(ch *tunnelChannel) int {
+	for id, m := range p.members {
+		if m == ch {
+			return id
+		}
+	}
+	return -1
+}
+func (p *VerifPool) Add(id int, key any) { p.rc.add(p.member(id), key) }
+func (p *VerifPool) Remove(id int) (any, bool) {
+	return p.rc.remove(p.member(id))
+}
+func (p *VerifPool) Pick() int {
+	ch := p.rc.pick()
+	if ch == nil {
+		return -1
+	}
+	return p.idOf(ch.(*tunnelChannel))
+}
+func (p *VerifPool) Ready() bool { return p.rc.ready() }
+func (p *VerifPool) WaitWouldBlock() bool {
+	p.rc.mu.Lock()
+	avail := p.rc.avail
+	p.rc.mu.Unlock()
+	select {
+	case <-avail:
+		return false
+	default:
+		return true
+	}
+}
+func (p *VerifPool) All() []int {
+	var out []int
+	for _, ch := range p.rc.allChans() {
+		out = append(out, p.idOf(ch.(*tunnelChannel)))
+	}
+	return out
+}
+func (p *VerifPool) Cursor() int {
+	p.rc.mu.Lock()
+	defer p.rc.mu.Unlock()
+	return p.rc.idx
+}
+
+// VerifReverseServerState reports the state (0 active, 1 closing, 2 closed)
+// and number of registered instances of a ReverseTunnelServer.
+func VerifReverseServerState(s *ReverseTunnelServer) (state int, instances int) {
+	s.mu.Lock()
+	defer s.mu.Unlock()
+	return int(s.state), len(s.instances)
+}
